@@ -24,6 +24,10 @@ mod syntax;
 mod var;
 
 mod public;
+#[cfg(cormacrelf_incremental_rs_verif)]
+mod verif;
+#[cfg(cormacrelf_incremental_rs_verif)]
+pub use verif::{verif_note, verif_set_sink};
 use boxes::SmallBox;
 pub use public::*;
 
